@@ -108,7 +108,7 @@ class RefPlayer(object):
         self.touched = set()
         # a pointer to an array element goes stale when a scalar is created (arrays move up):
         # a string that holds one and also creates a variable by naming it is not judged
-        array_pointer = re.search('\x01[^\x02]*\(', mml) is not None
+        array_pointer = re.search('\x01[^\x02]*[(]', mml) is not None
 
         def value(nm, named):
             if nm in variables:
@@ -117,7 +117,7 @@ class RefPlayer(object):
                 if array_pointer:
                     raise MalformedMML('unspecified-stale-array-pointer')
                 self.touched.add(nm)
-            return '' if nm.endswith('$') else 0
+            return '' if '$' in nm else 0
 
         def skip():
             while i[0] < len(s) and s[i[0]] == ' ':
@@ -391,17 +391,49 @@ MALFORMED = [
 ]
 
 
-def _mml(rng, n, speed, names):
+STRINGS = ['A$', 'B$', 'M9$']                   # a string may include (X) only strings further right
+NUMBERS = ['N%', 'K%', 'T!', 'Q#', 'ZZ.1%']
+ARRAYS = ['AR%', 'SA$', 'DV%']                  # elements are referred to through VARPTR$ only
+NUMVALUES = [1, 2, 4, 8, 16, 32, 64, 0, 3, 6, 33, 84, 85, 120, 255, 256, 5]
+# memory layout constants of the engine, used only to steer addresses (never to judge)
+FILE_HEADER = 194
+DEFAULT_RESERVED = 3429
+
+# bytes that mean something in MML: an address byte of a VARPTR$ reference that equals one of
+# them must still be read as an address byte
+BYTE_CLASSES = [
+    ('blank', [0x20]), ('semicolon', [0x3B]), ('equals', [0x3D]),
+    ('digit', list(range(0x30, 0x3A))), ('sign', [0x23, 0x2B, 0x2D, 0x2E]),
+    ('command', [ord(c) for c in 'ABCDEFGLMNOPTX<>']), ('lower', [ord(c) for c in 'abcdefglmnoptx']),
+    ('bracket', [0x22, 0x28, 0x29, 0x2C, 0x5B, 0x5D, 0x24, 0x25, 0x21]),
+    ('control', list(range(0, 9))), ('edge', [0xFF, 0x80, 0x7F, 0x0D, 0x0A, 0x09]),
+]
+BYTE_CLASS = {}
+for _nm, _vals in BYTE_CLASSES:
+    for _v in _vals:
+        BYTE_CLASS.setdefault(_v, _nm)
+
+
+def _pick_byte(rng, lowest=0, highest=255):
+    for _ in range(8):
+        v = rng.choice(rng.choice(BYTE_CLASSES)[1])
+        if lowest <= v <= highest:
+            return v
+    return 0x20
+
+
+def _mml(rng, n, speed, names, p_ref=0.10, p_ptr=0.3):
     toks = []
     for _ in range(n):
         r = rng.random()
-        if names and r < 0.10:
+        if names and r < p_ref:
             nm = rng.choice(names)
-            if nm.endswith('$'):
-                toks.append('X' + nm + ';' if rng.random() < 0.7 else 'X' + VP0 + nm + VP1)
+            ptr = '(' in nm or rng.random() < p_ptr
+            if nm.endswith('$') or '$(' in nm:
+                toks.append('X' + VP0 + nm + VP1 if ptr else 'X' + nm + ';')
             else:
                 cmd = rng.choice('LTON')
-                toks.append(cmd + '=' + nm + ';' if rng.random() < 0.7 else cmd + '=' + VP0 + nm + VP1)
+                toks.append(cmd + '=' + VP0 + nm + VP1 if ptr else cmd + '=' + nm + ';')
         else:
             toks.append(_token(rng, speed))
     out = ''
@@ -414,33 +446,110 @@ def _mml(rng, n, speed, names):
             elif k < 0.32 and not t.endswith(';') and VP1 not in t:
                 out += ';'
     if rng.random() < 0.3:
-        out = ''.join(c.lower() if rng.random() < 0.5 else c for c in out)
+        # (not inside a VARPTR$ placeholder: the name is BASIC source there)
+        parts = re.split('(\x01[^\x02]*\x02)', out)
+        out = ''.join(p if p.startswith(VP0) else ''.join(c.lower() if rng.random() < 0.5 else c for c in p) for p in parts)
     return out
+
+
+def _mml_len(mml):
+    """Length of the string PLAY gets: a VARPTR$ reference is three bytes."""
+    return len(re.sub('\x01[^\x02]*\x02', '...', mml))
+
+
+def _fillers(rng, serial, n):
+    """n filler scalars of varied sizes: ['PF0301QQ%', ...] (unique names, no keywords inside)."""
+    out = []
+    for j in range(n):
+        stem = 'PF%02d%02d' % (serial % 100, j)
+        out.append(stem + 'Q' * rng.choice([0, 0, 0, 1, 2, 3, 5, 9, 17, 30]) + rng.choice('%%!#$'))
+    return out
+
+
+STMTS = ['STOP', 'STOP', 'STOP', 'ERROR 5', 'ERROR 200', 'END', 'PRINT 1', 'ZQ%=ZQ%+1', 'RESTORE', 'LOCATE 1,1',
+         'RANDOMIZE 7', 'DEF SEG', 'ZF!=FRE("")', 'PRINT 1/0']
 
 
 def gen(rng, tier, prop):
     thorough = tier != 'quick'
     speed = rng.choice(['fast', 'fast', 'mixed'])
     n = rng.randint(3, 40 if thorough else 14)
+    mode = 'program' if rng.random() < 0.3 else 'direct'
     ops = []
-    names = []
+    names = []          # names the strings may refer to (they may have been CLEARed since)
+    defined = set()     # names assigned since the last CLEAR
+    arrays = set()
+    serial = [0]
     schedule = rng.choice(['tight', 'tight', 'drain', 'mixed'])
+    # how much the history moves variables about
+    spread = rng.choice(['none', 'some', 'some', 'much'])
+    p_ref, p_ptr = rng.choice([(0.10, 0.3), (0.10, 0.3), (0.16, 0.6), (0.25, 0.8)])
+
+    def pad(target=None):
+        serial[0] += 1
+        op = {'op': 'pad', 'id': serial[0], 'names': _fillers(rng, serial[0], rng.choice([0, 1, 2, 3, 5, 8, 13, 30]))}
+        if target is not None:
+            op['for'] = target
+            if rng.random() < 0.6:
+                op['lo'] = _pick_byte(rng)
+        return op
+
+    def var(nm):
+        base = nm.split('(')[0]
+        if nm.endswith('$') or '$(' in nm:
+            inner = []
+            if nm in STRINGS:
+                inner = [x for x in names if x in STRINGS and STRINGS.index(x) > STRINGS.index(nm)][:1]
+                inner += [x for x in names if x in NUMBERS][:1]
+            val = _mml(rng, rng.randint(1, 24), speed, inner, 0.10, 0.0)
+            if rng.random() < 0.1:
+                val += rng.choice(MALFORMED)[0]
+        else:
+            val = rng.choice(NUMVALUES)
+        if nm not in names:
+            names.append(nm)
+        defined.add(nm)
+        arrays.add(base)
+        return {'op': 'var', 'name': nm, 'value': val}
+
+    def pick_name():
+        r = rng.random()
+        if r < 0.25 or spread == 'none':
+            return rng.choice(['A$', 'B$', 'N%', 'K%', 'T!', 'Q#'])
+        if r < 0.6:
+            return rng.choice(STRINGS + NUMBERS)
+        base = rng.choice(ARRAYS)
+        if base == 'DV%':
+            return 'DV%%(%d)' % rng.choice([0, 1, 10, 11, 100, rng.randint(0, 400), 400])
+        return '%s(%d)' % (base, rng.randint(0, 10))
+
+    if spread != 'none' and rng.random() < 0.5:
+        # something in memory before the first variable the music will use
+        k = rng.random()
+        if k < 0.6:
+            ops.append(pad())
+        elif k < 0.8 and mode == 'direct':
+            ops.append({'op': 'line', 'n': rng.randint(0, 245), 'lines': rng.choice([1, 1, 2, 4, 14])})
+        else:
+            ops.append({'op': 'dim', 'name': 'FL%', 'n': rng.choice([0, 10, 100, 1000, rng.randint(0, 6000)])})
     for _ in range(n):
         r = rng.random()
         if r < 0.16:
-            nm = rng.choice(['A$', 'B$', 'N%', 'K%', 'T!', 'Q#'])
-            if nm.endswith('$'):
-                inner = [x for x in names if x.endswith('$') and x > nm][:1] if nm == 'A$' else []
-                val = _mml(rng, rng.randint(1, 24), speed, inner + [x for x in names if not x.endswith('$')][:1])
-                if rng.random() < 0.1:
-                    val += rng.choice(MALFORMED)[0]
-            else:
-                val = rng.choice([1, 2, 4, 8, 16, 32, 64, 0, 3, 6, 33, 84, 85, 120, 255, 256, 5])
-            ops.append({'op': 'var', 'name': nm, 'value': val})
-            if nm not in names:
-                names.append(nm)
-        elif r < 0.72:
-            mml = _mml(rng, rng.randint(1, 30 if rng.random() < 0.8 else 60), speed, names)
+            nm = pick_name()
+            if spread != 'none':
+                if nm.startswith('DV%') and 'DV%' not in arrays and rng.random() < 0.8:
+                    if rng.random() < 0.3:
+                        ops.append({'op': 'dim', 'name': 'FL%', 'n': rng.choice([100, 1000, rng.randint(0, 6000)])})
+                    ops.append({'op': 'dim', 'name': 'DV%', 'n': 400})
+                    arrays.add('DV%')
+                if nm not in defined and '(' not in nm and rng.random() < (0.7 if spread == 'much' else 0.35):
+                    ops.append(pad(nm))
+            ops.append(var(nm))
+            if '(' in nm and spread == 'much' and rng.random() < 0.5:
+                # move the (existing) array
+                ops.append(pad(nm))
+        elif r < 0.70:
+            mml = _mml(rng, rng.randint(1, 30 if rng.random() < 0.8 else 60), speed, names, p_ref, p_ptr)
             if rng.random() < 0.3:
                 mml = rng.choice(['MB', 'MB', 'MF', 'MBML', 'MBT255L64']) + mml
             op = {'op': 'play', 'mml': mml}
@@ -448,10 +557,17 @@ def gen(rng, tier, prop):
                 tok = rng.choice(MALFORMED)[0]
                 cut = rng.choice([0, len(mml), len(mml)])
                 op['mml'] = mml[:cut] + (' ' if cut and rng.random() < 0.5 else '') + tok + (' ' + mml[cut:] if cut == 0 else '')
-            if rng.random() < 0.2:
+            while _mml_len(op['mml']) > 250 and ' ' in op['mml']:
+                op['mml'] = op['mml'][:op['mml'].rindex(' ')]
+            k = rng.random()
+            if k < 0.16:
                 op['break_at'] = rng.choice([0.0, 0.01, 0.05, 0.2, 0.5, 1.0, 3.0])
+            elif k < 0.24:
+                op['break_poll'] = rng.choice([1, 2, 3, 4, 6, 10, 40, 200])
+            if mode == 'program' and rng.random() < 0.2:
+                op['direct'] = True
             ops.append(op)
-        elif r < 0.88:
+        elif r < 0.84:
             if schedule == 'tight':
                 s = rng.choice([0.001, 0.01, 0.05, 0.1])
             elif schedule == 'drain':
@@ -459,27 +575,56 @@ def gen(rng, tier, prop):
             else:
                 s = rng.choice([0.001, 0.05, 0.3, 1, 2, 10, 60])
             ops.append({'op': 'sleep', 's': s})
-        elif r < 0.94:
+        elif r < 0.89:
             ops.append({'op': 'jump', 's': rng.choice([-3, -1, -0.5, -0.01, 0.01, 0.5, 2, 30, 3600])})
+        elif r < 0.95:
+            ops.append({'op': 'stmt', 'text': rng.choice(STMTS)})
         else:
             ops.append({'op': 'reset'})
+            defined.clear()
+            arrays.clear()
+    session = {'syntax': 'advanced'}
     cfg = {
         'world': {'sleep0_us': rng.choice([0, 1, 50, 50, 500, 5000]), 'start_us': K.DEFAULT_START_US + rng.choice([0, 123456, 86399999999 - 36000000000])},
-        'session': {'syntax': 'advanced'},
+        'session': session,
+        'mode': mode,
     }
+    if mode == 'program':
+        cfg['rem'] = rng.choice([0, 0, rng.randint(0, 245)])
+    # where the variable area starts: the page (high address byte) is steered through the session's
+    # memory options, and topped up with REM lines in program mode
+    r = rng.random()
+    if spread != 'none' and r < 0.45:
+        files, reclen = rng.choice([1, 3, 3, 6]), rng.choice([32, 128, 128, 512])
+        hi = _pick_byte(rng, 0x06, 0xD0)
+        size = 3
+        if mode == 'program':
+            # upper bound of the size of the stored program
+            size += sum(len(t) + 6 for t in _program_text(ops, cfg.get('rem', 0)).values())
+        reserved = (hi << 8) + rng.randint(0, 120) - (files + 1) * (FILE_HEADER + reclen) - size
+        if reserved < 64:
+            files, reclen = 1, 32
+            reserved = (hi << 8) + rng.randint(0, 120) - (files + 1) * (FILE_HEADER + reclen) - size
+        if reserved >= 64:
+            session.update({'reserved_memory': reserved, 'max_files': files, 'max_reclen': reclen})
+            cfg['hi'] = hi
+    elif spread != 'none' and r < 0.7:
+        session.update({'reserved_memory': rng.randint(300, 30000), 'max_files': rng.choice([1, 3, 3, 6]),
+                        'max_reclen': rng.choice([32, 128, 128, 512])})
     return {'machine': NAME, 'prop': prop, 'cfg': cfg, 'ops': ops}
 
 
 def simplify(cfg, ops):
     for i, op in enumerate(ops):
         if op['op'] == 'play':
-            if 'break_at' in op:
-                o = dict(op)
-                del o['break_at']
-                yield cfg, ops[:i] + [o] + ops[i + 1:]
+            for key in ('break_at', 'break_poll', 'direct'):
+                if key in op:
+                    o = dict(op)
+                    del o[key]
+                    yield cfg, ops[:i] + [o] + ops[i + 1:]
             m = op['mml']
             # drop one command-sized slice at a time (never to an empty string)
-            toks = re.findall(r'X\x01[^\x02]*\x02|[A-Za-z<>][^A-Za-z<>]*', m)
+            toks = re.findall(r'[A-Za-z]=?\x01[^\x02]*\x02|[A-Za-z<>][^A-Za-z<>]*', m)
             if len(toks) > 1 and ''.join(toks) == m:
                 half = len(toks) // 2
                 for cand in (toks[:half], toks[half:]):
@@ -489,9 +634,27 @@ def simplify(cfg, ops):
                         yield cfg, ops[:i] + [dict(op, mml=''.join(toks[:j] + toks[j + 1:]))] + ops[i + 1:]
         if op['op'] == 'sleep' and op['s'] > 0.01:
             yield cfg, ops[:i] + [dict(op, s=0.01)] + ops[i + 1:]
+        if op['op'] == 'pad':
+            if op['names']:
+                yield cfg, ops[:i] + [dict(op, names=op['names'][:len(op['names']) // 2])] + ops[i + 1:]
+            if 'lo' in op:
+                o = dict(op)
+                del o['lo']
+                yield cfg, ops[:i] + [o] + ops[i + 1:]
+        if op['op'] == 'line' and (op['n'] or op['lines'] > 1):
+            yield cfg, ops[:i] + [dict(op, n=0, lines=1)] + ops[i + 1:]
+    if cfg.get('mode') == 'program':
+        yield dict(cfg, mode='direct'), ops
+    if cfg.get('rem'):
+        yield dict(cfg, rem=0), ops
     if cfg['world'].get('sleep0_us') != 50:
         c = dict(cfg)
         c['world'] = dict(cfg['world'], sleep0_us=50)
+        yield c, ops
+    if len(cfg.get('session', {})) > 1:
+        c = dict(cfg)
+        c['session'] = {'syntax': cfg['session'].get('syntax', 'advanced')}
+        c.pop('hi', None)
         yield c, ops
 
 
@@ -510,18 +673,78 @@ def _statement(mml):
     return b('PLAY ' + '+'.join(out or ['""']))
 
 
+def _assignment(op):
+    """(BASIC source, model value) of a var op."""
+    nm = op['name']
+    val = op['value']
+    if nm.endswith('$') or '$(' in nm:
+        if not isinstance(val, str):
+            val = str(val)
+        # placeholders make no sense inside a variable: they are only generated in PLAY strings
+        val = val.replace(VP0, '').replace(VP1, '').replace('"', '')
+        return b('%s="%s"' % (nm, val)), val
+    val = int(val) if not isinstance(val, str) else 0
+    return b('%s=%d' % (nm, val)), val
+
+
+def _program_text(ops, rem):
+    """Program mode: {line number: source}. Op i is line 10*(i+1), followed by a STOP."""
+    lines = {1: b('PLAY "%s"' % RefPlayer().defaults_string()), 5: b'STOP'}
+    if rem:
+        lines[2] = b'REM ' + b'x' * rem
+    for i, op in enumerate(ops):
+        text = None
+        if op['op'] == 'var':
+            text = _assignment(op)[0]
+        elif op['op'] == 'play' and not op.get('direct'):
+            text = _statement(op['mml'] if op['mml'].replace(' ', '') else 'MN')
+        elif op['op'] == 'reset':
+            text = b'CLEAR'
+        if text is not None:
+            lines[10 * (i + 1)] = text
+            lines[10 * (i + 1) + 1] = b'STOP'
+    return lines
+
+
+def _byte_tag(addresses):
+    """Signature suffix for a statement with VARPTR$ references at these addresses."""
+    if not addresses:
+        return ''
+    found = set()
+    for a in addresses:
+        for v in (a & 0xFF, (a >> 8) & 0xFF):
+            if v in BYTE_CLASS:
+                found.add(BYTE_CLASS[v])
+    for nm, _ in BYTE_CLASSES:
+        if nm in found:
+            return ':varptr-address-byte-' + nm
+    return ':varptr'
+
+
 def _body(run):
     case = run.case
     w = run.w
+    cfg = case['cfg']
+    ops = case['ops']
+    program = cfg.get('mode') == 'program'
     from pcbasic.basic.base import signals
     ref = RefPlayer()
     variables = {}
+    arrays = {}        # base name -> bound, or None where the model does not know
+    doubtful = set()   # scalars that a string may have created by naming them
     # model of the sound queue: absolute end times (us) of entries not yet known to have ended
     queue = []
     timing = [True]
+    # STOP and END return to direct mode; whether sound still queued survives that is not
+    # specified: until the instant at which it would have ended anyway timing is not judged
+    unsure_until = [0]
     slack_us = int(2 * TICK * 1e6) + 12 * w.sleep0_us + 100
+    # what happened since the PLAY state was last confirmed by a compared statement
+    context = ['']
+    lineno = {}
+    cont_ok = [False]
     with w:
-        d = Driver(w, **case['cfg'].get('session', {}))
+        d = Driver(w, **cfg.get('session', {}))
         seen = [len(w.audio.signals)]
 
         def new_tones():
@@ -534,30 +757,168 @@ def _body(run):
         def waiting(now):
             return [e for e in queue if e > now]
 
+        def forget_everything():
+            """CLEAR (also implied by NEW, RUN and by storing a line) on the model side."""
+            ref.reset()
+            variables.clear()
+            arrays.clear()
+            doubtful.clear()
+            del queue[:]
+            timing[0] = True
+            unsure_until[0] = 0
+            context[0] = ''
+
+        def back_in_direct_mode():
+            """STOP, END or an error took the engine to direct mode: sound may have been stopped."""
+            if queue and queue[-1] > w.clock_us:
+                unsure_until[0] = max(unsure_until[0], queue[-1])
+
+        def direct(text, poll_cap=20000):
+            """A direct-mode statement (in program mode: while the program is stopped)."""
+            r = d.exec(text, poll_cap=poll_cap)
+            if r.errs or b'Break' in r.out:
+                cont_ok[0] = False
+            return r
+
+        def statement(i, text, poll_cap=20000):
+            """Execute the statement of op i: directly, or by continuing the stored program up to its STOP."""
+            if i not in lineno:
+                return direct(text, poll_cap), False
+            r = d.exec(b'CONT' if cont_ok[0] else b'GOTO %d' % lineno[i], poll_cap=poll_cap)
+            cont_ok[0] = (b'Break in %d\xff' % (lineno[i] + 1)) in r.out
+            return r, True
+
         def resync():
-            r = d.exec(b(('PLAY "%s"' % ref.defaults_string())), poll_cap=400000)
+            r = direct(b(('PLAY "%s"' % ref.defaults_string())), poll_cap=400000)
             if r.err is not None:
                 run.violate('C42', 'wellformed-rejected:state-commands', 'PLAY "%s" -> %r' % (ref.defaults_string(), r))
             ref.reset()
+            context[0] = ''
             new_tones()
 
-        for op in case['ops']:
+        def create(names):
+            """Assign 0 or "" to new scalars, a few to a line."""
+            line = []
+            for nm in list(names) + [None]:
+                if nm is not None:
+                    line.append('%s=%s' % (nm, '""' if nm.endswith('$') else '0'))
+                    variables[nm.upper()] = '' if nm.endswith('$') else 0
+                if line and (nm is None or sum(len(x) + 1 for x in line) > 180):
+                    direct(b(':'.join(line)))
+                    line = []
+
+        def address(nm):
+            """VARPTR of a variable the model knows to exist (coverage and steering only)."""
+            return int(d.eval(b('VARPTR(%s)' % nm))) & 0xFFFF
+
+        def exists(nm):
+            nm = nm.upper()
+            if '(' in nm:
+                base, idx = nm[:-1].split('(')
+                return arrays.get(base) is not None and int(idx) <= arrays[base]
+            return nm in variables and nm not in doubtful
+
+        lost = False
+        if program:
+            # store the program, then run its first lines, which set every PLAY state variable
+            text = _program_text(ops, cfg.get('rem', 0))
+            for ln in sorted(text):
+                r = d.exec(b'%d %s' % (ln, text[ln]))
+                if r.out:
+                    raise K.HarnessError('could not store %r: %r' % (text[ln], r))
+                if ln % 10 == 0:
+                    lineno[ln // 10 - 1] = ln
+            if cfg.get('hi') is not None:
+                # top up the program size so that the variables start in the page wanted
+                for ln in (3, 4, 6):
+                    d.exec(b'PZ%=0')
+                    room = (cfg['hi'] << 8) + 8 - (address('PZ%') - 4)
+                    if room < 8:
+                        break
+                    d.exec(b'%d REM %s' % (ln, b'x' * min(room - 7, 245)))
+            r = d.exec(b'RUN', poll_cap=400000)
+            forget_everything()
+            new_tones()
+            if b'Break in 5\xff' not in r.out or r.errs:
+                run.probe('program-lost')
+                lost = True
+            cont_ok[0] = True
+
+        for i, op in enumerate(ops):
+            if lost or run.stop:
+                break
             k = op['op']
             if k == 'var':
-                nm = op['name']
-                val = op['value']
-                if nm.endswith('$'):
-                    if not isinstance(val, str):
-                        val = str(val)
-                    # placeholders make no sense inside a variable: they are only generated in PLAY strings
-                    val = val.replace(VP0, '').replace(VP1, '')
-                    d.exec(b('%s="%s"' % (nm, val.replace('"', ''))))
-                    variables[nm.upper()] = val.replace('"', '')
+                nm = op['name'].upper()
+                text, val = _assignment(op)
+                r, in_program = statement(i, text)
+                if '(' in nm:
+                    base, idx = nm[:-1].split('(')
+                    if base not in arrays:
+                        # an array comes into being with bound 10; beyond that the outcome is not modelled
+                        arrays[base] = 10 if int(idx) <= 10 else None
+                    if arrays[base] is not None and int(idx) <= arrays[base]:
+                        variables[nm] = val
                 else:
-                    val = int(val) if not isinstance(val, str) else 0
-                    d.exec(b('%s=%d' % (nm, val)))
-                    variables[nm.upper()] = val
-                run.state(k, nm[-1])
+                    variables[nm] = val
+                    doubtful.discard(nm)
+                if in_program:
+                    back_in_direct_mode()
+                if r.errs and not ('(' in nm and arrays.get(nm.split('(')[0]) is None):
+                    run.probe('assignment-error')
+                run.state(k, nm[-1], program)
+            elif k == 'pad':
+                create(op.get('names', []))
+                target = op.get('for')
+                if target is not None and op.get('lo') is not None:
+                    shift = None
+                    if '(' in target:
+                        if exists(target):
+                            shift = (op['lo'] - address(target)) % 256
+                    elif target.upper() not in variables:
+                        mark = 'PZ%02dXX%%' % (op.get('id', 0) % 100)
+                        create([mark])
+                        # the next scalar starts after this integer; its value after a header of 4 bytes
+                        # and the name beyond two characters
+                        stem = target.rstrip('%!#$')
+                        shift = (op['lo'] - (address(mark) + 2 + 4 + max(0, len(stem) - 2))) % 256
+                    if shift:
+                        # integers named PZ<id><j>Q..: 4 + (length - 2) + 2 bytes each, length 6..40
+                        if shift < 10:
+                            shift += 256
+                        count = -(-shift // 44)
+                        sizes = [shift // count + (1 if j < shift % count else 0) for j in range(count)]
+                        create([('PZ%02d%02d' % (op.get('id', 0) % 100, j)).ljust(sz - 4, 'Q') + '%' for j, sz in enumerate(sizes)])
+                        run.probe('variable-placed')
+                run.state(k, len(op.get('names', [])) > 4, op.get('lo') is not None, program)
+            elif k == 'dim':
+                base = op['name'].upper()
+                r = direct(b('DIM %s(%d)' % (op['name'], op['n'])))
+                if base not in arrays and r.err is None:
+                    arrays[base] = int(op['n'])
+                elif r.err not in (None, 10):
+                    arrays[base] = None
+                run.state(k, op['n'] > 500, program)
+            elif k == 'line':
+                if not program:
+                    # a stored program moves the variable area; storing a line clears the variables,
+                    # what else it resets is not relied upon: CLEAR follows
+                    for j in range(int(op.get('lines', 1))):
+                        d.exec(b'%d REM %s' % (60000 + j, b'x' * int(op['n'])))
+                    d.exec(b'CLEAR')
+                    forget_everything()
+                    new_tones()
+                run.state(k, program)
+            elif k == 'stmt':
+                r = direct(b(op['text']))
+                if b'Break' in r.out or op['text'] == 'END':
+                    back_in_direct_mode()
+                if b'Break' in r.out:
+                    context[0] = 'after-break'
+                elif r.errs and not context[0]:
+                    context[0] = 'after-error'
+                new_tones()
+                run.state(k, op['text'], program)
             elif k == 'sleep':
                 w.sleep(op['s'])
                 run.state(k, len(waiting(w.clock_us)) > 0)
@@ -569,37 +930,62 @@ def _body(run):
                 w.jump_clock(op['s'])
                 run.state(k, op['s'] > 0, timing[0])
             elif k == 'reset':
-                r = d.exec(b'CLEAR')
-                ref.reset()
-                variables.clear()
-                del queue[:]
-                timing[0] = True
+                r, _ = statement(i, b'CLEAR')
+                forget_everything()
                 new_tones()
-                run.state(k)
+                run.state(k, program)
             elif k == 'play':
                 mml = op['mml']
                 if not mml.replace(' ', ''):
                     mml = 'MN'
                 before = (ref.foreground, ref.gap)
-                if any(nm.upper() not in variables for nm in re.findall('\x01([^\x02]*)\x02', mml)):
+                state_before = ref.state()
+                pointers = [nm.upper() for nm in re.findall('\x01([^\x02]*)\x02', mml)]
+                where = []
+                ref.trace = [state_before]
+                ref.touched = set()
+                if _mml_len(mml) > 255:
+                    # String too long: the string expression fails, PLAY does not get to run
+                    events, err, kinds = [], 'unspecified-string-too-long', set(['too-long'])
+                elif any('(' in nm and not exists(nm) for nm in pointers) or any(nm in doubtful for nm in pointers):
+                    # an element of an array the model does not know, or a scalar that an earlier
+                    # string may or may not have created
+                    events, err, kinds = [], 'unspecified-pointer-target', set(['varptr-unknown'])
+                elif any(nm not in variables for nm in pointers if '(' not in nm):
                     # VARPTR$ of a variable that was never assigned is an Illegal function call
                     # of the string expression itself: PLAY does not get to run
                     events, err, kinds = [], 'varptr-of-unassigned-variable', set(['varptr-unassigned'])
                 else:
+                    where = [address(nm) for nm in pointers]
                     events, err, kinds = ref.run(mml, variables)
+                doubtful.update(ref.touched)
+                tag = _byte_tag(where)
+                if where:
+                    run.probe('varptr-statements')
+                    for a in where:
+                        for v in (a & 0xFF, a >> 8):
+                            if v in BYTE_CLASS:
+                                run.probe('varptr-address-byte-' + BYTE_CLASS[v])
                 want = flatten(events)
                 c0 = w.clock_us
                 q0 = len(waiting(c0))
+                judge_timing = timing[0] and c0 >= unsure_until[0]
                 fired = []
                 armed = [True]
-                if op.get('break_at') is not None:
+                if op.get('break_at') is not None or op.get('break_poll') is not None:
                     def fire(world, fired=fired, armed=armed):
                         if armed[0]:
                             fired.append(world.clock_us)
                             world.inputs.pending.append(K.sig_break())
-                    w.at_time(op['break_at'], fire)
-                r = d.exec(_statement(mml), poll_cap=400000)
+                    if op.get('break_at') is not None:
+                        w.at_time(op['break_at'], fire)
+                    else:
+                        w.at_poll(op['break_poll'], fire)
+                source = _statement(mml)
+                r, in_program = statement(i, source, poll_cap=400000)
                 armed[0] = False
+                if fired:
+                    cont_ok[0] = False
                 c1 = w.clock_us
                 tones, stops = new_tones()
                 got = coalesce([(f, dur) for _, f, dur in tones])
@@ -608,49 +994,70 @@ def _body(run):
                 for clk, f, dur in tones:
                     start = max(queue[-1] if queue else 0, clk)
                     queue.append(start + int(round(dur * 1e6)))
+                if not judge_timing and queue and c0 < unsure_until[0]:
+                    unsure_until[0] = max(unsure_until[0], queue[-1])
                 end_all = queue[-1] if queue else c0
                 blocked = (c1 - c0) > slack_us
                 run.state(k, fg, ref.gap, min(q0, 40) // 8, blocked, bool(fired), err or 'ok',
-                          tuple(sorted(kinds))[:6], len(want) > 32)
+                          tuple(sorted(kinds))[:6], len(want) > 32, in_program, context[0])
                 if fired:
                     run.probe('break-fired-during-play')
+                if in_program and not fired and r.err is None and not cont_ok[0]:
+                    # the program did not arrive at the STOP that follows the statement
+                    run.probe('program-lost')
+                    lost = True
+                    continue
                 # ---- outcome ---------------------------------------------------------------
-                if r.err not in (None, 5):
-                    run.violate('C42', 'wrong-error', '%r -> %r' % (_statement(mml), r))
+                unspecified = err is not None and err.startswith('unspecified')
+                diverged = False
+                if unspecified:
+                    pass
+                elif r.err not in (None, 5):
+                    run.violate('C42', 'wrong-error' + tag, '%r -> %r' % (source, r))
                 elif err is None and r.err == 5:
-                    run.violate('C42', 'wellformed-rejected', '%r -> Illegal function call; reference sees %d tones' % (_statement(mml), len(want)))
-                elif err is not None and not err.startswith('unspecified') and r.err is None and not fired:
-                    run.violate('C42', 'malformed-accepted:' + err, '%r (variables %r) -> no error, expected Illegal function call' % (_statement(mml), variables))
+                    run.violate('C42', 'wellformed-rejected' + tag, '%r (VARPTR$ addresses %r, variables %r) -> Illegal function call; reference sees %d tones' % (
+                        source, where, variables, len(want)))
+                elif err is not None and r.err is None and not fired:
+                    run.violate('C42', 'malformed-accepted:' + err, '%r (variables %r) -> no error, expected Illegal function call' % (source, variables))
                 # ---- tones -----------------------------------------------------------------
                 if err is None and r.err is None and not fired:
                     run.probe('tones-compared', len(want))
                     if len(want) > 0:
                         run.probe('statements-with-tones')
+                        if context[0]:
+                            run.probe('tones-compared-' + context[0])
                     bad = None
                     if len(got) != len(want):
                         bad = ('count', 'engine emitted %d entries, reference %d' % (len(got), len(want)))
                     else:
-                        for i, ((gf, gd), (wf, wd)) in enumerate(zip(got, want)):
+                        for j, ((gf, gd), (wf, wd)) in enumerate(zip(got, want)):
                             if not close(gf, wf):
-                                bad = ('frequency', 'entry %d: engine %.6f Hz for %.6f s, reference %.6f Hz for %.6f s' % (i, gf, gd, wf, wd))
+                                bad = ('frequency', 'entry %d: engine %.6f Hz for %.6f s, reference %.6f Hz for %.6f s' % (j, gf, gd, wf, wd))
                                 break
                             if not close(gd, wd):
                                 bad = ('gap' if wf == 0 else 'duration',
-                                       'entry %d (%.3f Hz): engine %.9f s, reference %.9f s' % (i, wf, gd, wd))
+                                       'entry %d (%.3f Hz): engine %.9f s, reference %.9f s' % (j, wf, gd, wd))
                                 break
                     if bad:
-                        run.violate('C42', 'tones-mismatch:%s:%s' % (bad[0], 'foreground' if before[0] else 'background'),
-                                    '%r with variables %r, state before %r: %s\nengine   %r\nreference %r' % (
-                                        _statement(mml), variables, before, bad[1], got[:12], want[:12]))
-                elif err is not None and err.startswith('unspecified'):
+                        diverged = True
+                        run.violate('C42', 'tones-mismatch:%s:%s%s%s' % (
+                            bad[0], 'foreground' if before[0] else 'background', tag, ':' + context[0] if context[0] else ''),
+                                    '%r with variables %r (VARPTR$ addresses %r), state before (O, L, T, gap, MF) %r%s: %s\nengine   %r\nreference %r' % (
+                                        source, variables, where, state_before, ' carried over: ' + context[0] if context[0] else '',
+                                        bad[1], got[:12], want[:12]))
+                    if len(want) > 0:
+                        # the state is confirmed (or the violation is reported once)
+                        context[0] = ''
+                elif unspecified:
                     run.probe('unspecified-shape-statements')
                 else:
                     run.probe('malformed-statements' if err is not None else 'interrupted-statements')
                     # whatever was emitted must be a prefix of what the string specifies before the error
                     pre = got[:-1] if got and got[-1][0] == 0 else got
                     if len(pre) > len(want) or any(not (close(g[0], x[0]) and close(g[1], x[1])) for g, x in zip(pre, want)):
-                        run.violate('C42', 'tones-before-error-not-a-prefix',
-                                    '%r: engine emitted %r, reference prefix %r' % (_statement(mml), got[:12], want[:12]))
+                        diverged = True
+                        run.violate('C42', 'tones-before-error-not-a-prefix' + tag,
+                                    '%r: engine emitted %r, reference prefix %r' % (source, got[:12], want[:12]))
                 # ---- liveness ---------------------------------------------------------------
                 if op.get('break_at') is not None and c1 > c0 + int(op['break_at'] * 1e6) + slack_us:
                     # the statement was still running a tick after Ctrl-Break was pressed
@@ -658,10 +1065,15 @@ def _body(run):
                                 'Break pressed at +%.3f s (%s), PLAY returned at +%.3f s' % (
                                     op['break_at'], 'seen by the engine at +%.3f s' % ((fired[0] - c0) / 1e6) if fired else 'never polled',
                                     (c1 - c0) / 1e6))
+                elif fired and c1 > fired[0] + slack_us:
+                    run.violate('C42', 'liveness:break-ignored',
+                                'Break delivered at poll %d of the statement (+%.3f s), PLAY returned at +%.3f s' % (
+                                    op.get('break_poll', 0), (fired[0] - c0) / 1e6, (c1 - c0) / 1e6))
                 if fired:
                     del queue[:]
                     timing[0] = True
-                elif r.err is None and err is None and timing[0]:
+                    unsure_until[0] = 0
+                elif r.err is None and err is None and judge_timing:
                     if fg:
                         if blocked:
                             run.probe('foreground-blocked')
@@ -689,8 +1101,26 @@ def _body(run):
                         if len(ends) <= 16 and blocked:
                             run.violate('C42', 'background-blocked-needlessly',
                                         '%d entries queued, PLAY took %.4f s' % (len(ends), (c1 - c0) / 1e6))
-                if (err is not None or r.err is not None or fired) and not run.stop:
+                if in_program:
+                    # the STOP after the statement, or an error, took the engine to direct mode
+                    back_in_direct_mode()
+                    if not context[0]:
+                        context[0] = 'after-stop'
+                # ---- the PLAY state after a statement that was not carried out in full ------------
+                if diverged and not run.stop:
+                    # reported: do not report the consequences in the statements that follow as well
                     resync()
+                elif (err is not None or r.err is not None or fired) and not run.stop:
+                    # the statement may have been given up at any command: the state is known if no
+                    # command of the string changes it
+                    if unspecified or r.err not in (None, 5) or len(set(ref.trace)) > 1:
+                        resync()
+                    else:
+                        run.probe('state-carried-over-' + ('break' if fired else 'error'))
+                        if fired:
+                            context[0] = 'after-break'
+                        elif not context[0]:
+                            context[0] = 'after-error'
                 # forget entries that have ended (keep the list short)
                 now = w.clock_us
                 if timing[0]:
